@@ -75,7 +75,7 @@ def roots(tier):
         return out
     for ident in ("kitty", "konsole"):
         add(ident, s, "pile", ov_on, 4, udepth=3)
-        add(ident, s, "list", ov_off, 4 if ident == "kitty" else 3, scroll=1, udepth=3 if ident == "konsole" else 0)
+        add(ident, s, "list", ov_off, 3, scroll=1, udepth=3 if ident == "konsole" else 0)
         add(ident, s, "tlist", ov_off, 3)
         add(ident, s, "tlist", ov_off, 3, slots=slots[ident][1:] + slots[ident][:1])
         add(ident, s, "cols", ov_img, 3)
